@@ -619,8 +619,19 @@ class Runner:
                     self.min_in += [3, sid]
                     self.bulk_bytes += op[1]
                     self.congested = True
-                    for _ in range(3):
+                    # let the window fill, then wait for the first PTO probe to go out: the next one is due twice as late,
+                    # so the steps that follow see write passes with an exhausted window and no probe
+                    def quiet():
+                        n = len(self.subject_pns)
                         self._write()
+                        return len(self.subject_pns) == n
+                    phase, guard = 0, 0
+                    while phase < 3 and guard < 14:
+                        guard += 1
+                        q = quiet()
+                        if (phase in (0, 2) and q) or (phase == 1 and not q):
+                            phase += 1
+                    self.stats["cut_fill_steps"] += guard
                 elif k == "D":
                     self._deliver(op[1], op[2], op[3], op[4], op[5] if len(op) > 5 else -1)
                 elif k == "Pa":    # PATH_CHALLENGE frames from another source address (a path the model does not have)
@@ -1026,7 +1037,7 @@ def gen_cut():
         # per stream: msd 1000, md 4000; 600 bytes; MAX_STREAM_DATA 2000 refused
         for e, lst in ((999, cases), (1000, cases), (1001, cand), (2000, cand), (2001, cases)):
             lst.append(c(1000, 4000, [["S", pb, 0, 600, 1, 0, 0], ["S", pb, e - 10, 10, 2, 0, 1]] + tail, "cut-max-stream-data"))
-        cases.append(c(1000, 4000, [["S", pb, 0, 600, 1, 0, 0], ["S", pb + 4, 990, 10, 2, 0, 1], ["S", pb + 4, 1000, 1, 2, 0, 1]] + tail,
+        cases.append(c(1000, 4000, [["S", pb, 0, 600, 1, 0, 0], ["S", pb + 4, 390, 10, 2, 0, 1], ["S", pb + 4, 1000, 1, 2, 0, 1]] + tail,
                        "cut-max-stream-data"))                                                    # another stream keeps 1000
         cand.append(c(1000, 4000, [["S", pb, 0, 600, 1, 0, 0], ["R", pb, 1500]] + tail, "cut-max-stream-data"))
         # stream count: the 65th stream; MAX_STREAMS 256 refused
